@@ -197,12 +197,14 @@ ParseBody(b) ==
                    ELSE IF trimmed = <<"q">> THEN "query"
                    ELSE IF trimmed[1] = "q" THEN "qfield" ELSE "field"
         rtxt    == IF kind = "qfield" THEN DropN(trimmed, 2) ELSE IF kind = "field" THEN trimmed ELSE <<>>
-    IN [kind |-> kind, plus |-> has("PLUS"), preserve |-> has("s"), number |-> has("n"), file |-> has("f"),
-        raw |-> has("r"), rng |-> IF kind \in {"field", "qfield"} THEN ParseRange(rtxt) ELSE BadRange,
-        stripped |-> <<"LB">> \o trimmed \o <<"RB">>]
+        rng     == IF kind \in {"field", "qfield"} THEN ParseRange(rtxt) ELSE BadRange
+    IN [kind |-> IF kind \in {"field", "qfield"} /\ ~rng.ok THEN "bad" ELSE kind,
+        plus |-> has("PLUS"), preserve |-> has("s"), number |-> has("n"), file |-> has("f"), raw |-> has("r"),
+        isq |-> has("q"), rng |-> rng, stripped |-> <<"LB">> \o trimmed \o <<"RB">>]
 
-(* pieces: [lit |-> text]  |  [esc |-> placeholder text without the backslash]  |  [ph |-> parsed placeholder]     *)
-(* CODE-DERIVED: a field placeholder whose range does not parse is put back as text, without its flag letters.     *)
+(* pieces: [type "lit", text]  |  [type "esc", text = the placeholder without its backslash]  |  [type "ph", ph]   *)
+(* CODE-DERIVED: a field placeholder whose range does not parse (kind "bad") is put back as text, without its flag  *)
+(* letters - but it still counts as a placeholder, flags included, when buildPlusList looks at the template.         *)
 RECURSIVE ScanFrom(_, _)
 ScanFrom(t, i) ==
     IF i > Len(t) THEN <<>>
@@ -210,10 +212,7 @@ ScanFrom(t, i) ==
          THEN <<[type |-> "esc", text |-> SubSeq(t, i + 1, PlaceholderEnd(t, i + 1))]>> \o ScanFrom(t, PlaceholderEnd(t, i + 1) + 1)
     ELSE IF PlaceholderEnd(t, i) # 0
          THEN LET j == PlaceholderEnd(t, i)
-                  p == ParseBody(SubSeq(t, i + 1, j - 1))
-              IN (IF p.kind \in {"field", "qfield"} /\ ~p.rng.ok
-                  THEN <<[type |-> "lit", text |-> p.stripped]>>
-                  ELSE <<[type |-> "ph", ph |-> p]>>) \o ScanFrom(t, j + 1)
+              IN <<[type |-> "ph", ph |-> ParseBody(SubSeq(t, i + 1, j - 1))]>> \o ScanFrom(t, j + 1)
     ELSE <<[type |-> "lit", text |-> <<t[i]>>]>> \o ScanFrom(t, i + 1)
 Scan(t) == ScanFrom(t, 1)
 (* a scanned template: its pieces and what buildPlusList wants to know about it (hasPreviewFlags) *)
@@ -221,7 +220,7 @@ TInfo(t) == LET ps  == Scan(t)
                 phs == SelectSeq(ps, LAMBDA p : p.type = "ph")
             IN [ps |-> ps, slot |-> phs # <<>>,
                 plus  |-> \E i \in 1..Len(phs) : phs[i].ph.plus,
-                query |-> \E i \in 1..Len(phs) : phs[i].ph.kind \in {"query", "qfield"},
+                query |-> \E i \in 1..Len(phs) : phs[i].ph.isq,
                 file  |-> \E i \in 1..Len(phs) : phs[i].ph.file]
 
 -------------------------------------------------------------------------------
@@ -255,6 +254,7 @@ Written(p, x, q(_)) == IF p.kind \in {"query", "qfield"} THEN q(x)
                        ELSE q(x)
 ExpandPiece(pc, ti, st, q(_)) ==
     IF pc.type # "ph" THEN pc.text
+    ELSE IF pc.ph.kind = "bad" THEN pc.ph.stripped
     ELSE LET m == Meaning(pc.ph, ti, st) IN JoinWith([i \in 1..Len(m) |-> Written(pc.ph, m[i], q)], <<"SP">>)
 ExpandI(ti, st, q(_)) == Cat([i \in 1..Len(ti.ps) |-> ExpandPiece(ti.ps[i], ti, st, q)])
 Valid(t, st)      == ValidI(TInfo(t), st)
@@ -273,6 +273,7 @@ AddWords(ls, m) == FoldLeft(LAMBDA s, x : [EndWord(s) EXCEPT !.cur = x, !.inw = 
 WantStep(ti, st, ls, pc) ==
     IF ls.mode \in {"HAZ", "NA"} THEN ls
     ELSE IF pc.type # "ph" THEN LexRun(ls, pc.text)
+    ELSE IF pc.ph.kind = "bad" THEN LexRun(ls, pc.ph.stripped)
     ELSE IF ls.mode # "U" \/ ((pc.ph.raw \/ pc.ph.file) /\ pc.ph.kind \in {"item", "field"} /\ ~pc.ph.number)
          THEN Mode(ls, "NA")
     ELSE LET m == Meaning(pc.ph, ti, st) IN IF m = <<>> THEN ls ELSE AddWords(ls, m)
